@@ -57,7 +57,7 @@ fn texts(max_lines: usize, shapes: &[&str]) -> Vec<String> {
             }
         }
         for ls in &nx {
-            for (term, last_unterminated) in [("\n", false), ("\n", true), ("\r\n", false)] {
+            for (term, last_unterminated) in [("\n", false), ("\n", true), ("\r\n", false), ("\r", false)] {
                 let mut t = String::new();
                 for (i, l) in ls.iter().enumerate() {
                     t.push_str(l);
@@ -228,7 +228,7 @@ impl Prop for C16 {
                 "similar::text::utils::upper_seq_ratio, similar::get_diff_ratio (0.5 gates, real f32)",
                 "capture_diff_deadline(Patience, MultiLookup, ..) with the H1 clock",
             ],
-            bounds: format!("(at most {} symbolic words in both texts together, {} under the symbolic clock) line texts of 0..={} lines per side built from the line shapes {:?} (words symbolic, separators space / punctuation), LF / CRLF / unterminated last line, plus 1-against-4-line shapes for the line-count gate; x 3 algorithms x inline deadline {{None, already expired, built-in 500 ms under the symbolic clock}}", match tier { Tier::Quick => 6, Tier::Thorough => 8 }, match tier { Tier::Quick => 4, Tier::Thorough => 6 }, match tier { Tier::Quick => 2, Tier::Thorough => 3 }, match tier { Tier::Quick => &LINE_SHAPES[..3], Tier::Thorough => &LINE_SHAPES[..] }),
+            bounds: format!("(at most {} symbolic words in both texts together, {} under the symbolic clock) line texts of 0..={} lines per side built from the line shapes {:?} (words symbolic, separators space / punctuation), LF / CRLF / lone CR / unterminated last line, plus 1-against-4-line shapes for the line-count gate; x 3 algorithms x inline deadline {{None, already expired, built-in 500 ms under the symbolic clock}}", match tier { Tier::Quick => 6, Tier::Thorough => 8 }, match tier { Tier::Quick => 4, Tier::Thorough => 6 }, match tier { Tier::Quick => 2, Tier::Thorough => 3 }, match tier { Tier::Quick => &LINE_SHAPES[..3], Tier::Thorough => &LINE_SHAPES[..] }),
             outside: "the unicode word segmentation of real str / [u8] (third-party code; SymTxt's word tokenizer stands in); longer lines and texts".into(),
             assumptions: vec!["feature set text+inline+unicode+bytes; with `unicode` the inline code calls tokenize_unicode_words, which for SymTxt is the harness tokenizer (runs of ordinary characters, whitespace runs, single punctuation)".into()],
             required_witnesses: vec!["replace_ops_expanded", "replace_ops_with_emphasis", "replace_ops_below_a_ratio_gate_or_without_common_words", "paths_where_the_inline_deadline_fired", "paths_where_the_default_inline_deadline_was_consulted"],
